@@ -8,8 +8,11 @@ C09 — localized objectives measure exactly the global score change of a local 
 * when localization yields nothing the evaluation is unchanged (C08.localized_none_unchanged), so the
   difference is 0 on both sides.
 Instantiating the identity for each class' `evaluate` is done by the correspondence + law oracle: PARTIAL.
+* `totalFaithful_of_scoreFaithful`: the per-objective identity (C09 as stated) implies the hypothesis
+  `C03.TotalFaithful` of the whole-problem theorem `C03.optimize_never_lowers`, in exact arithmetic (ℚ).
 -/
 import DnaModel.Props.C08
+import DnaModel.Props.C03
 import Mathlib.Algebra.BigOperators.Intervals
 import Mathlib.Algebra.Order.BigOperators.Group.Finset
 import Mathlib.Tactic.Linarith
@@ -72,5 +75,113 @@ theorem none_diff_zero (b : BSpec ℚ) (l w : Loc) (rh : Option Bool) (s t : Seq
     (hnone : b.localized w rh = .none) (hag : C08.AgreeOutside w.start w.stop s t) :
     (b.evaluate s).map (·.score) = (b.evaluate t).map (·.score) := by
   rw [C08.localized_none_unchanged b l w rh s t hb hl hl0 hw hw0 hst hsize hwin hnone hag]
+
+/-! ### from the per-objective identity to the solver's totals (exact arithmetic) -/
+section totals
+open Dna.Pure Dna.Solver
+variable {σ : Type} [BEq σ]
+
+instance : LawfulScore ℚ where
+  lt_irrefl a := by simp [Score.lt]
+  lt_trans a b c h1 h2 := by
+    simp only [Score.lt, decide_eq_true_eq] at *; exact lt_trans h1 h2
+  le_iff_not_lt a b := by
+    simp only [Score.le, Score.lt, decide_eq_true_eq, decide_eq_false_iff_not, not_lt]
+  lt_of_lt_of_not_lt a b c h1 h2 := by
+    simp only [Score.lt, decide_eq_true_eq, decide_eq_false_iff_not, not_lt] at *; exact lt_of_lt_of_le h1 h2
+
+/-- **C09 for one objective, as the solver uses it**: for an edit confined to the window, the
+    localized and re-initialised objective's score changes by exactly the global score change (and
+    keeps its boost); when localization yields nothing the global score does not change -/
+def ScoreFaithful (ops : SpecOps σ ℚ) (ev : σ → Seq → Eval ℚ) (lz : σ → Loc → Seq → Option σ)
+    (ini : σ → Seq → Role → σ) (o : σ) : Prop :=
+  ∀ (a b : ℕ) (s t : Seq), C02.AgreeOut a b s t →
+    match lz o ⟨a, b, 0⟩ s with
+    | none => (ev o t).score = (ev o s).score
+    | some o1 =>
+      (ev (ini o1 s .objective) t).score - (ev (ini o1 s .objective) s).score = (ev o t).score - (ev o s).score ∧
+      ops.boost (ini o1 s .objective) = ops.boost o
+
+theorem totalFrom_eq (ops : SpecOps σ ℚ) (ev : σ → Seq → Eval ℚ) (s : Seq) (os : List σ) (acc : ℚ) :
+    totalFrom ops ev s os acc = acc + (os.map (fun o => ops.boost o * (ev o s).score)).sum := by
+  induction os generalizing acc with
+  | nil => simp [totalFrom]
+  | cons o os ih =>
+    simp only [totalFrom, List.foldl_cons, List.map_cons, List.sum_cons] at ih ⊢
+    rw [ih]
+    simp only [Score.add, Score.mul]
+    rw [add_assoc]
+
+theorem total_diff (ops : SpecOps σ ℚ) (ev : σ → Seq → Eval ℚ) (s t : Seq) (os : List σ) :
+    totalFrom ops ev t os Score.zero - totalFrom ops ev s os Score.zero =
+      (os.map (fun o => ops.boost o * ((ev o t).score - (ev o s).score))).sum := by
+  rw [totalFrom_eq, totalFrom_eq]
+  induction os with
+  | nil => simp
+  | cons o os ih =>
+    simp only [List.map_cons, List.sum_cons]
+    have : (Score.zero : ℚ) = 0 := rfl
+    rw [this] at ih ⊢
+    linarith
+
+/-- the weighted score change summed over the local objectives equals the one summed over the
+    problem's objectives -/
+theorem local_sum_eq (ops : SpecOps σ ℚ) (ev : σ → Seq → Eval ℚ) (lz ini) (a b : ℕ) (s t : Seq) (hag : C02.AgreeOut a b s t)
+    (os : List σ) (h : ∀ o ∈ os, ScoreFaithful ops ev lz ini o) :
+    (((((os.filter (fun o => !Score.eq (ops.boost o) (Score.zero : ℚ))).filterMap (fun o => lz o ⟨a, b, 0⟩ s)).map
+        (fun o => ini o s .objective))).map (fun o => ops.boost o * ((ev o t).score - (ev o s).score))).sum =
+    (os.map (fun o => ops.boost o * ((ev o t).score - (ev o s).score))).sum := by
+  induction os with
+  | nil => simp
+  | cons o os ih =>
+    have ih' := ih (fun o' ho' => h o' (List.mem_cons_of_mem _ ho'))
+    have hf := h o List.mem_cons_self a b s t hag
+    simp only [List.filter_cons, List.map_cons, List.sum_cons]
+    cases hz : Score.eq (ops.boost o) (Score.zero : ℚ) with
+    | true =>
+      have hb0 : ops.boost o = 0 := by
+        simp only [Score.eq, beq_iff_eq] at hz; exact hz
+      simp only [Bool.not_true, Bool.false_eq_true, if_false, hb0, zero_mul, zero_add]
+      exact ih'
+    | false =>
+      simp only [Bool.not_false, if_true, List.filterMap_cons]
+      cases hl : lz o ⟨a, b, 0⟩ s with
+      | none =>
+        rw [hl] at hf
+        simp only at hf
+        simp only [hf, sub_self, mul_zero, zero_add]
+        exact ih'
+      | some o1 =>
+        rw [hl] at hf
+        simp only at hf
+        simp only [List.map_cons, List.sum_cons, hf.1, hf.2]
+        rw [ih']
+
+/-- **C09 ⇒ the hypothesis of `C03.optimize_never_lowers`**, in exact arithmetic -/
+theorem totalFaithful_of_scoreFaithful (ops : SpecOps σ ℚ) (ev : σ → Seq → Eval ℚ) (lz ini) (F : Frame σ)
+    (h : ∀ o ∈ F.objectives, ScoreFaithful ops ev lz ini o) : C03.TotalFaithful ops ev lz ini F := by
+  intro a b s t LF hag hobj hloc
+  have h1 := total_diff ops ev s t LF.objectives
+  have h2 := total_diff ops ev s t F.objectives
+  rw [hobj, C02.localObjectives, local_sum_eq ops ev lz ini a b s t hag F.objectives h, ← h2] at h1
+  have hloc' : ¬ (totalFrom ops ev t LF.objectives Score.zero < totalFrom ops ev s LF.objectives Score.zero) :=
+    of_decide_eq_false hloc
+  rw [hobj, C02.localObjectives] at hloc'
+  show decide (totalFrom ops ev t F.objectives Score.zero < totalFrom ops ev s F.objectives Score.zero) = false
+  apply decide_eq_false
+  intro hlt
+  apply hloc'
+  linarith
+
+/-- **C03, whole problem, exact arithmetic**: objectives satisfying the C09 identity are never traded down by `optimize()` -/
+theorem optimize_never_lowers_rat (ops : SpecOps σ ℚ) (ev lz ini) (sett : Settings) (F : Frame σ) (n : ℕ)
+    (hp : PureEval ops ev) (hq : C02.PureObj ops lz ini)
+    (hfit : ∀ a b : ℤ, C15.ChoicesFit n (F.space.localized a b).multichoices)
+    (h : ∀ o ∈ F.objectives, ScoreFaithful ops ev lz ini o) (s : Seq) (st : St σ ℚ) (hn : s.length = n) :
+    total ops ev F s ≤ total ops ev F (optimize ops sett F s st).2.1 := by
+  have := C03.optimize_never_lowers ops ev lz ini sett F n hp hq hfit (totalFaithful_of_scoreFaithful ops ev lz ini F h) s st hn
+  exact not_lt.1 (of_decide_eq_false this)
+
+end totals
 
 end Dna.C09
